@@ -67,6 +67,17 @@ def check(src, rep):
         for op in pp.post.raw_ops:
             if isinstance(op, tuple) and op[0] == "other":
                 rep.violation("R2", "dlde.ModeDReader.read", "lines-other-growth", f"collected lines modified by {op[1]}", p.file, p1model.ploc(p, pp))
+    # any other store the per-line / per-octet step makes into the reader object has no bound established by the rules above
+    GROW = (".add", ".append", ".extend", ".update", ".insert", ".setdefault", ".appendleft", ".push")
+    for who, model, fnq in (("P1", p, "dlde.ModeDReader.read"), ("HDLC", m, "hdlc.HdlcFrameReader.read")):
+        seen_o = set()
+        for pp in model.paths:
+            for o in getattr(pp.post, "other", []):
+                so = str(o)
+                if so.startswith("self.") and so.endswith(GROW) and so not in seen_o:
+                    seen_o.add(so)
+                    rep.violation("R2", fnq, f"unbounded-store:{so}", f"the {who} reader's step stores into `{so.rsplit('.', 1)[0]}` ({so.rsplit('.', 1)[1]}), a container of the reader that nothing empties or bounds: "
+                                  "it grows with the stream (e.g. one entry per distinct line / frame)", model.file, (p1model.ploc(p, pp) if who == "P1" else loc(m, pp)))
     rep.floor("stores covered", 5, 5)
     from sa.cross import include
     include(rep, src, "C01", {"R2"}, "R1", "a frame grows by exactly one octet per append (premise of the frame-length bound: the guard that discards over-long frames can fire)")
